@@ -251,6 +251,7 @@ pub fn shapes_case(r: &mut Rng) -> Vec<String> {
     };
     let d = ShapesImpl;
     let f = |r: &mut Rng| f32::from_bits((r.next() as u32) & 0x7f7f_ffff);
+    let mut extra: Vec<String> = Vec::new();
     let mut run = |name: &str, body: &mut dyn FnMut() -> bool| {
         out.push(format!("#stat op-shapes-{} 1", name));
         match catch_unwind(AssertUnwindSafe(body)) {
@@ -271,6 +272,23 @@ pub fn shapes_case(r: &mut Rng) -> Vec<String> {
     run("opt", &mut || conn.opt(a, b) == d.opt(a, b));
     let k = r.next() as u8;
     run("unit_like", &mut || conn.unit_like((), ((), k)) == d.unit_like((), ((), k)));
+    // boxed futures with every combination of Send / Sync / Unpin
+    {
+        use crate::abitraits::{block_on, Futs, FutsImpl};
+        match catch_unwind(AssertUnwindSafe(|| AbiConnection::<dyn Futs>::from_boxed_trait(Box::new(FutsImpl)))) {
+            Ok(Ok(c)) => {
+                let x = r.next() as u32;
+                let d = FutsImpl;
+                run("fut-plain", &mut || { let (mut a, mut b) = (c.plain(x), d.plain(x)); block_on(a.as_mut()) == block_on(b.as_mut()) && block_on(d.plain(x).as_mut()).is_some() });
+                run("fut-send", &mut || { let (mut a, mut b) = (c.send(x), d.send(x)); block_on(a.as_mut()) == block_on(b.as_mut()) });
+                run("fut-send-sync", &mut || { let (mut a, mut b) = (c.send_sync(x), d.send_sync(x)); block_on(a.as_mut()) == block_on(b.as_mut()) });
+                run("fut-unpinned", &mut || { let (mut a, mut b) = (c.unpinned(x), d.unpinned(x)); block_on(std::pin::Pin::new(&mut *a)) == block_on(std::pin::Pin::new(&mut *b)) });
+                run("fut-all", &mut || { let (mut a, mut b) = (c.all(x), d.all(x)); block_on(std::pin::Pin::new(&mut *a)) == block_on(std::pin::Pin::new(&mut *b)) });
+            }
+            Ok(Err(e)) => extra.push(format!("!C09 futures-connection-not-created got={}", err_class(&e))),
+            Err(_) => extra.push(format!("!C09 futures-connection-panics got={}", panic_class(&last_panic()))),
+        }
+    }
     // forty arguments, references among the last ten
     {
         use crate::abitraits::{Blob, ManyArgs, ManyArgsImpl, Rec};
@@ -292,10 +310,11 @@ pub fn shapes_case(r: &mut Rng) -> Vec<String> {
                     call(&c) == call(&dm)
                 });
             }
-            Ok(Err(e)) => out.push(format!("!C09 many-args-connection-not-created got={}", err_class(&e))),
-            Err(_) => out.push(format!("!C09 many-args-connection-panics got={}", panic_class(&last_panic()))),
+            Ok(Err(e)) => extra.push(format!("!C09 many-args-connection-not-created got={}", err_class(&e))),
+            Err(_) => extra.push(format!("!C09 many-args-connection-panics got={}", panic_class(&last_panic()))),
         }
     }
+    out.extend(extra);
     out
 }
 
